@@ -19,6 +19,7 @@ THEOREMS = [
     "C08.pairs_fold", "C08.pairs_fold_ok", "C08.pairs_fold_needs_valid", "C08.prefix_loop_not_fold",
     "C08.shift_ok", "C08.shift_paths_gen", "C08.shift_paths", "C08.shift_keeps_ids", "C08.shift_frame",
     "C08.delete_children_paths", "C08.overriding_paths", "C08.merge_children_paths",
+    "C08.replace_keeps_position", "C08.replace_later_sibling_observation",
     "C08.copy_ok", "C08.copy_paths", "C08.copy_fresh_ids", "C08.copy_origin_untouched",
     "C08.source_untouched", "C08.t2t_copy", "C08.delete_paths",
 ]
